@@ -15,6 +15,11 @@
 //	                                   <older> (if any) as epoch 1 and a loadable segment file for every
 //	                                   id:version of <ctx>; mm = LoadMMapAlways, nm = LoadMMapNever; child process
 //	                                                                      -> "ok epoch=<e> <segs>" | error | panic | fault | overalloc
+//	ldw <mm|nm> <file hex> <older hex|-> <ctx>
+//	                                   the same directory opened by the real index.OpenWriter (loadSnapshots walks the
+//	                                   snapshot files oldest -> newest and must come up on the newest one that loads);
+//	                                   the writer's current snapshot is reported, then the writer is closed
+//	                                                                      -> "ok epoch=<e> <segs>" | error | panic | …
 //	real <variant>                     (script only) builds an index with the real Writer and emits `ld` lines for
 //	                                   the snapshot file it left behind
 //
@@ -57,7 +62,7 @@ import (
 type h struct{}
 
 func (h) Rule() string {
-	return "stream codec: (a) round trips of generated snapshots (0..500 segments (6000 in the thorough tier), ids at varint boundaries up to 2^64-1, absent/empty/small/8 KB deleted bitmaps, a sweep that puts a segment start at every offset around the 4096-byte buffer edge, type names of length 0..20); (b) rejection: every truncation length, every single-bit flip, appended tails (random, zero, CRC-consistent), seeded byte mutations with and without CRC repair of valid files (small, and crossing 4096/8192), crafted length fields (2^63, 2^64-1, 2^62, 2^48+1, 2^48, 1 TiB, 16 GiB, 24 MB, count 2^63; 350 claims of 60 KB) and short biased garbage, decoded by the real ReadFrom and loaded by index.OpenReader through LoadMMapAlways and LoadMMapNever in a child process (RLIMIT_AS 2 GiB, allocation measured); snapshot files left by the real Writer. A case is non-trivial when the input is not empty and distinct when its op line is new"
+	return "stream codec: (a) round trips of generated snapshots (0..500 segments (6000 in the thorough tier), ids at varint boundaries up to 2^64-1, absent/empty/small/8 KB deleted bitmaps, a sweep that puts a segment start at every offset around the 4096-byte buffer edge, type names of length 0..20); (b) rejection: every truncation length, every single-bit flip, appended tails (random, zero, CRC-consistent), seeded byte mutations with and without CRC repair of valid files (small, and crossing 4096/8192), crafted length fields (2^63, 2^64-1, 2^62, 2^48+1, 2^48, 1 TiB, 16 GiB, 24 MB, count 2^63; 350 claims of 60 KB) and short biased garbage, decoded by the real ReadFrom and loaded by index.OpenReader through LoadMMapAlways and LoadMMapNever in a child process (RLIMIT_AS 2 GiB, allocation measured); the same directories (damaged newest snapshot above an intact older one) opened by the real index.OpenWriter; snapshot files left by the real Writer. A case is non-trivial when the input is not empty and distinct when its op line is new"
 }
 
 // ---------------------------------------------------------------- canonical forms
@@ -489,6 +494,11 @@ func (h) Gen(r *hlib.Rand, tier string, scale int, emit func(string)) {
 				continue
 			}
 			emit("ld " + m + " " + hlib.Hex(file) + " " + o + " " + ctx)
+			// the writer's walk over the same directory (every such directory in the thorough tier, every third one
+			// with an older snapshot in the quick tier, always for the small files)
+			if old != nil && (thorough || alt%3 == 0 || len(file) < 40) && len(file) < 1<<16 {
+				emit("ldw " + m + " " + hlib.Hex(file) + " " + o + " " + ctx)
+			}
 		}
 	}
 	both := func(file, old []byte, ctx string) {
@@ -983,6 +993,61 @@ func (c *child) doLd(mode string, file, older []byte, hasOlder bool, ctx string)
 	})
 }
 
+// doLdw: a fresh directory per call (OpenWriter locks it, and its deletion policy removes files).
+func (c *child) doLdw(mode string, file, older []byte, hasOlder bool, ctx string) string {
+	dir := filepath.Join(c.work, "ldw")
+	_ = os.RemoveAll(dir)
+	_ = os.MkdirAll(dir, 0o700)
+	if ctx != "-" {
+		for _, p := range strings.Split(ctx, ",") {
+			f := strings.Split(p, ":")
+			id, _ := strconv.ParseUint(f[0], 16, 64)
+			ver, _ := strconv.ParseUint(f[1], 10, 32)
+			src := c.tpl[uint32(ver)]
+			if src == "" {
+				src = c.tpl[1]
+			}
+			dst := filepath.Join(dir, fmt.Sprintf("%012x.seg", id))
+			if err := os.Link(src, dst); err != nil {
+				data, _ := os.ReadFile(src)
+				_ = os.WriteFile(dst, data, 0o600)
+			}
+		}
+	}
+	if err := os.WriteFile(filepath.Join(dir, "000000000002.snp"), file, 0o600); err != nil {
+		return "harness-error"
+	}
+	if hasOlder {
+		_ = os.WriteFile(filepath.Join(dir, "000000000001.snp"), older, 0o600)
+	}
+	return measured(len(file), func() func() string {
+		ic := index.DefaultConfigWithDirectory(func() index.Directory {
+			d := index.NewFileSystemDirectory(dir)
+			if mode == "nm" {
+				d.SetLoadMMapFunc(index.LoadMMapNever)
+			}
+			return d
+		})
+		w, err := index.OpenWriter(ic)
+		if err != nil {
+			return func() string { return "error" }
+		}
+		return func() string {
+			defer w.Close()
+			rd, err := w.Reader()
+			if err != nil || rd == nil {
+				return "harness-error"
+			}
+			defer rd.Close()
+			segs, err := rd.VerifSegs()
+			if err != nil {
+				return "harness-error"
+			}
+			return fmt.Sprintf("ok epoch=%d %s", rd.VerifEpoch(), segsString(segs))
+		}
+	})
+}
+
 func doRf(b []byte) string {
 	return measured(len(b), func() func() string {
 		segs, n, err := index.VerifDecodeSnapshot(bytes.NewReader(b))
@@ -1015,6 +1080,8 @@ func childMain() {
 				res = doRf(unhex(w[1]))
 			case "ld":
 				res = c.doLd(w[1], unhex(w[2]), unhex(w[3]), w[3] != "-", w[4])
+			case "ldw":
+				res = c.doLdw(w[1], unhex(w[2]), unhex(w[3]), w[3] != "-", w[4])
 			}
 			answer("R " + res)
 		}
@@ -1199,10 +1266,10 @@ func (h) Exec(line string, out func(string, string), st *hlib.Stats, work string
 		res := ask(work, line)
 		st.Count("rf:" + classOf(res))
 		emit(line+roarTable(framedPayloads(b)), res, len(b) > 0)
-	case "ld":
+	case "ld", "ldw":
 		f := unhex(w[2])
 		res := ask(work, line)
-		st.Count("ld-" + w[1] + ":" + classOf(res))
+		st.Count(w[0] + "-" + w[1] + ":" + classOf(res))
 		var body []byte
 		if len(f) >= 4 {
 			body = f[:len(f)-4]
